@@ -192,7 +192,8 @@ def finish_helpers(acc: Acc, case: dict, model: dict, where: str) -> None:
 
 
 def finish_cheap(acc: Acc, case: dict, model: dict, where: str) -> None:
-    for x, y in ((1.0, 1.0005), (100.0, 111.0), (0.01, 0.0104), (0.0, 0.4), (0.0, 0.0625)):
+    # (the relative tolerance scales with the SECOND operand: the last two pairs sit between rtol*|a| and rtol*|b| for rtol = 1/8)
+    for x, y in ((1.0, 1.0005), (100.0, 111.0), (0.01, 0.0104), (0.0, 0.4), (0.0, 0.0625), (1.0, 1.14), (1.14, 1.0)):
         want_close = bool(abs(x - y) <= model["atol"] + model["rtol"] * abs(y))
         got_close = bool(fl.Op.is_close(x, y))
         if got_close != want_close:
@@ -237,6 +238,11 @@ def run_scenario(acc: Acc, seen: set, levels, mode, assign, fresh_factory: bool 
             observe_helpers(acc, case, model, where)
 
     catch_at = D - mode[1] if mode[0] != "normal" else None  # the try/except wraps contexts catch_at..D-1
+    # normal-exit nestings of depth >= 2 create all their context objects UP FRONT (before any of them is entered) and enter
+    # them later: what a context restores is what was in force when it was ENTERED
+    deferred = None
+    if mode[0] == "normal" and D >= 2 and not fresh_factory:
+        deferred = [fl.settings.context(**{k: level_values(lv)[k] for k in levels[lv]}) for lv in range(D)]
 
     def guarded(level: int) -> None:
         if catch_at is not None and catch_at == level:
@@ -268,7 +274,7 @@ def run_scenario(acc: Acc, seen: set, levels, mode, assign, fresh_factory: bool 
             model[k] = vals[k]
         by_exception = True
         try:
-            with fl.settings.context(**kwargs):
+            with (deferred[level] if deferred is not None else fl.settings.context(**kwargs)):
                 check(f"inside@{level}")
                 guarded(level + 1)
                 check(f"inner-left@{level}")
@@ -291,6 +297,41 @@ def run_scenario(acc: Acc, seen: set, levels, mode, assign, fresh_factory: bool 
         acc.cls("with_direct_assignment")
     if not final_ok and not bad:
         acc.violate("state", {"where": "final"}, case, show(model), "differs", "final state differs from the model")
+
+
+def run_other_instance(acc: Acc) -> None:
+    """settings.context on a Settings object other than the library-wide one: that object is changed and restored, the
+    library-wide settings are never touched (all 128 subsets x normal / exception exit)."""
+    from fuzzylite.library import Settings
+    for keys in subsets(None):
+        for exc in (False, True):
+            reset_settings()
+            before_global = current()
+            profile = Settings(decimals=5, atol=0.25, rtol=0.125, alias="profile", float_type=np.float32,
+                               logger=logging.getLogger("vmc.c20.profile"), factory_manager=level_values(2)["factory_manager"])
+            before_profile = {k: vars(profile)[ATTR[k]] for k in KEYS}
+            vals = level_values(0)
+            case = {"levels": [list(keys)], "mode": ["ValueError", 1] if exc else ["normal"], "assign": None, "fresh_factory": False, "other_instance": True}
+            acc.case(("other-instance", keys, exc), nontrivial=bool(keys))
+            acc.transitions += 1
+            inside_ok = True
+            try:
+                with profile.context(**{k: vals[k] for k in keys}):
+                    inside = {k: vars(profile)[ATTR[k]] for k in KEYS}
+                    inside_ok = all((inside[k] is vals[k] or inside[k] == vals[k]) if k in keys else (inside[k] is before_profile[k] or inside[k] == before_profile[k]) for k in KEYS)
+                    mid_global = current()
+                    if exc:
+                        raise Boom("boom")
+            except Boom:
+                pass
+            after_profile = {k: vars(profile)[ATTR[k]] for k in KEYS}
+            ok = inside_ok and equal_state(after_profile, before_profile) and equal_state(current(), before_global) and equal_state(mid_global, before_global)
+            if not ok:
+                acc.violate("state", {"where": "other-instance"}, case, [show(before_profile), show(before_global)], [show(after_profile), show(current())],
+                            f"context({list(keys)}) on another Settings object ({'left by an exception' if exc else 'left normally'}): that object is "
+                            f"{show(after_profile)} afterwards (was {show(before_profile)}), the library-wide settings are {show(current())} (were {show(before_global)})")
+            reset_settings()
+    acc.cls("other_instance_scenarios")
 
 
 def scenarios(tier: str, depth: int):
@@ -354,6 +395,9 @@ def run_shard(tier: str, seed: int, shard):
                 if not ok:
                     reset_settings()
     acc.states = len(seen)
+    if depth == 1 and part == 0:
+        if not acc.guard({"levels": [], "mode": ["normal"], "assign": None, "other_instance": True}, run_other_instance, acc):
+            reset_settings()
     if shard == (2, 3, 16):
         acc.sample({"levels": [["decimals", "alias"], ["decimals"]], "mode": ["KeyboardInterrupt", 1],
                     "assign": [2, "atol"], "meaning": "two nested contexts, atol assigned directly in the innermost body, "
@@ -373,7 +417,8 @@ def summarize(tier: str, seed: int, merged: dict) -> dict:
             "(none | any of the 7 settings at any level); invariant vars(settings)==model and the helper observations (Op.str on floats and numpy "
             "float32/float16 scalars and arrays, Op.is_close at 5 magnitudes, scalar dtype, repr alias, factory manager, FldExporter objects built "
             "at import time / during the previous observation, Benchmark.run) "
-            "checked after every enter/assign/exit. states = distinct (open-context stack, settings) model states, "
+            "checked after every enter/assign/exit; normal-exit nestings of depth >= 2 create their context objects up front and enter them "
+            "later; additionally all 128 subsets x 2 exit modes on a Settings object other than the library-wide one. states = distinct (open-context stack, settings) model states, "
             "transitions = invariant evaluations; non-trivial = at least one context names a setting"
         ),
         "exhaustive": True,
@@ -384,6 +429,10 @@ def summarize(tier: str, seed: int, merged: dict) -> dict:
 
 def replay(case: dict):
     acc = Acc(ID)
+    if case.get("other_instance"):
+        acc.guard(case, run_other_instance, acc)
+        reset_settings()
+        return acc.violations
     LONG_LIVED.clear()  # (the once-per-worker memo of observed configurations must not hide the replayed observation)
     levels = tuple(tuple(s) for s in case["levels"])
     mode = tuple(case["mode"])
